@@ -304,22 +304,7 @@ class Gen:
     # ------------------------------------------------------------------
     # nominal voltage estimate from the model
     def vnom(self, m, n, _d=0):
-        s = m.comps[n]
-        k = s["kind"]
-        if k == "Source":
-            return s["p"]["vo"]
-        if not m.parents[n] or _d > 20:
-            return 0.0
-        vin = self.vnom(m, m.parents[n][0], _d + 1)
-        if k == "Converter":
-            return s["p"]["vo"]
-        if k == "LinReg":
-            vo = s["p"]["vo"]
-            mag = min(abs(vo), max(abs(vin) - abs(s["p"].get("vdrop", 0.0)), 0.0))
-            return mag if vo >= 0 else -mag
-        if k == "Rectifier":
-            return abs(vin)
-        return vin
+        return model_vnom(m, n)
 
     # ------------------------------------------------------------------
     # argument helpers
@@ -751,6 +736,26 @@ class Gen:
         if self.r.chance(0.3):
             conf["edge"]["color"] = self.r.pick(["red", "gray40"])
         return conf
+
+
+def model_vnom(m, n, _d=0):
+    """Nominal output voltage estimate of component n from the model."""
+    s = m.comps[n]
+    k = s["kind"]
+    if k == "Source":
+        return s["p"]["vo"]
+    if not m.parents[n] or _d > 20:
+        return 0.0
+    vin = model_vnom(m, m.parents[n][0], _d + 1)
+    if k == "Converter":
+        return s["p"]["vo"]
+    if k == "LinReg":
+        vo = s["p"]["vo"]
+        mag = min(abs(vo), max(abs(vin) - abs(s["p"].get("vdrop", 0.0)), 0.0))
+        return mag if vo >= 0 else -mag
+    if k == "Rectifier":
+        return abs(vin)
+    return vin
 
 
 def row_quantities(row):
